@@ -63,7 +63,7 @@ class Hooks:
         sim.advance(d)
         sim.count('model_evals')
         for f in self.faults:
-            if f['job'] == job and f.get('nth', 0) == n and not f.get('_done'):
+            if f['kind'] != 'F6start' and f['job'] == job and f.get('nth', 0) == n and not f.get('_done'):
                 f['_done'] = True
                 self.fired.append({'kind': f['kind'], 'job': job, 'exc': f.get('exc'), 'task': sim.current.tid})
                 sim.count('fault_' + f['kind'])
@@ -210,7 +210,10 @@ def gen_cfg(s, mode, real_frac=0.0):
     cfg['decoy'] = s.choice([None, None, None, 'single', 'multi'])
     cfg['faults'] = []
     njobs = n_jobs(cfg)
-    if mode == 'fault' and njobs:
+    if mode == 'fault' and njobs and (cfg['cpus'] or cfg['cpu_count']) > 1 and not cfg['gpus'] and s.chance(0.08):
+        # F6: the k-th Process.start() fails (fork: EAGAIN) after earlier workers are already running
+        cfg['faults'].append({'kind': 'F6start', 'job': None, 'nth': s.randrange(cfg['cpus'] or cfg['cpu_count'])})
+    elif mode == 'fault' and njobs:
         jobs = owned_jobs(cfg)
         if jobs:
             r = s.random()
@@ -314,6 +317,9 @@ def simulate(cfg, stream=None, decisions=None):
     hooks.dur = tuple(cfg['dur'])
     env = Env(sim, cpu_count=cfg['cpu_count'], speeds={int(k): v for k, v in cfg['speeds'].items()},
               spawn_variant=cfg['spawn'])
+    for f in cfg['faults']:
+        if f['kind'] == 'F6start':
+            env.start_fault = f['nth']
     box = {}
 
     def main():
@@ -346,7 +352,7 @@ def simulate(cfg, stream=None, decisions=None):
     out['steps'] = sim.steps
     out['sim_time'] = sim.now
     out['diverged'] = ch.diverged
-    out['fired'] = hooks.fired
+    out['fired'] = hooks.fired + ([{'kind': 'F6start', 'job': None, 'exc': 'OSError', 'task': 0}] if env.start_fault_fired else [])
     out['stats'] = dict(sim.stats)
     out['workers_alive_at_end'] = sum(1 for p in env.procs if p.task is not None and not p.task.done)
     out['worker_exitcodes'] = [p.exitcode for p in env.procs]
